@@ -17,3 +17,68 @@ Definition exclude_all (runs : list (Z * Z)) (excls : list (list (Z * Z))) : lis
 
 Definition access_sequence (g : Z) (runs : list (Z * Z)) (excls : list (list (Z * Z))) : option (list (Z * Z)) :=
   join_regions g (exclude_all runs excls).
+
+(* ---- the whole of do_access: several sequences, skip_noncanonical, exclude BEDs --------
+     fa_regions = get_regions(fa_fname)
+     if skip_noncanonical: fa_regions = drop_noncanonical_contigs(fa_regions)
+     access_regions = GA.from_rows(fa_regions)
+     for ex_fname in exclude_fnames:
+         access_regions = access_regions.subtract(tabio.read(ex_fname, "bed3"))
+     return GA.from_rows(join_regions(access_regions, min_gap_size))
+   Tables are lists of (chromosome, start, end).  subtract and join_regions both work
+   chromosome by chromosome in the order of first occurrence in the accessible table
+   (`groupby("chromosome", sort=False)`); a chromosome that is only in an exclude file is
+   never looked at, and a chromosome absent from an exclude file keeps its rows
+   (`subtract_row k [] = [k]`).  tabio.read sorts the exclude rows by (chromosome key,
+   start, end), so the rows of one chromosome arrive sorted by (start, end).
+   `min_gap_size = min_gap_size or 0`.  A failed `assert gap > 0` on any chromosome fails
+   the call (the generator is consumed by GA.from_rows). *)
+From CNV Require Import Base.Str Model.AccessText.
+
+Definition t_name (r : tagged) : string := fst (fst r).
+Definition t_pair (r : tagged) : Z * Z := (snd (fst r), snd r).
+
+(* the rows of chromosome c, in table order *)
+Definition rows_of (c : string) (t : list tagged) : list (Z * Z) :=
+  map t_pair (filter (fun r => String.eqb (t_name r) c) t).
+
+(* chromosome names in order of first occurrence *)
+Fixpoint uniq (l : list string) : list string :=
+  match l with
+  | [] => []
+  | c :: t => c :: filter (fun d => negb (String.eqb d c)) (uniq t)
+  end.
+
+Definition sort_pairs (l : list (Z * Z)) : list (Z * Z) := of_rows (sort_rows (to_rows l)).
+
+Definition drop_noncanonical (skip : bool) (t : list tagged) : list tagged :=
+  if skip then filter (fun r => is_canonical_contig_name (t_name r)) t else t.
+
+Definition gap_or_0 (g : option Z) : Z := match g with Some z => z | None => 0 end.
+
+(* the exclude tables as chromosome c sees them *)
+Definition excls_for (c : string) (excls : list (list tagged)) : list (list (Z * Z)) :=
+  map (fun ex => sort_pairs (rows_of c ex)) excls.
+
+Definition access_chrom (g : Z) (kept : list tagged) (excls : list (list tagged)) (c : string)
+  : option (list tagged) :=
+  match access_sequence g (rows_of c kept) (excls_for c excls) with
+  | Some r => Some (tag c r)
+  | None => None
+  end.
+
+Definition do_access (g : option Z) (skip : bool) (regions : list tagged) (excls : list (list tagged))
+  : option (list tagged) :=
+  let kept := drop_noncanonical skip regions in
+  match all_some (map (access_chrom (gap_or_0 g) kept excls) (uniq (map t_name kept))) with
+  | Some parts => Some (concat parts)
+  | None => None
+  end.
+
+(* FASTA text in, table out *)
+Definition do_access_text (g : option Z) (skip : bool) (txt : string) (excls : list (list tagged))
+  : option (list tagged) :=
+  match get_regions_text txt with
+  | Some regions => do_access g skip regions excls
+  | None => None
+  end.
